@@ -217,7 +217,21 @@ def obs_tree(ts, t, inv, full=True):
 def tree_kwargs(case):
     kw = {"sample_lists": case["sample_lists"], "root_threshold": case["thr"]}
     if case.get("tracked") is not None:
-        kw["tracked_samples"] = case["tracked"]
+        tr = case["tracked"]
+        layout = case.get("tracked_layout")
+        if layout:
+            import numpy as np
+            if layout == "strided":
+                buf = np.full(2 * len(tr), -7, dtype=np.int32)
+                buf[::2] = tr
+                tr = buf[::2]
+            elif layout == "reversed":
+                tr = np.array(tr[::-1], dtype=np.int32)[::-1]
+            elif layout == "int64":
+                tr = np.array(tr, dtype=np.int64)
+            elif layout == "tuple":
+                tr = tuple(tr)
+        kw["tracked_samples"] = tr
     return kw
 
 
@@ -250,6 +264,8 @@ def observe_views(case):
     want = case["paths"]
     if "trees" in want:
         paths["trees"] = [obs_tree(ts, t, inv) for t in ts.trees(**kw)]
+    if "trees_core" in want:
+        paths["trees"] = [obs_tree(ts, t, inv, full=False) for t in ts.trees(**kw)]
     if "reversed" in want:
         paths["reversed"] = [obs_tree(ts, t, inv) for t in reversed(ts.trees(**kw))]
     if "aslist" in want:
@@ -974,7 +990,14 @@ class ViewsRand(ViewsBase):
                                       p_internal_sample=rng.choice([0.0, 0.15, 0.5]),
                                       p_gap=rng.choice([0.0, 0.15, 0.4]),
                                       p_root=rng.choice([0.05, 0.2, 0.5]))
+            if rng.random() < 0.25:
+                # application-defined flag bits on some nodes (sample or not) must not matter
+                for nd in desc["nodes"]:
+                    if rng.random() < 0.5:
+                        nd[0] |= rng.choice([1 << 16, 1 << 19, 1 << 1, (1 << 31)])
             case = dict(rand_opts(rng, desc), desc=desc)
+            if case.get("tracked") and rng.random() < 0.5:
+                case["tracked_layout"] = rng.choice(["strided", "reversed", "int64", "tuple"])
             case["other"] = other_desc(rng, desc) if rng.random() < 0.3 else None
             yield with_paths(rng, case, p_all=0.15 if big else 0.35)
 
@@ -987,6 +1010,15 @@ class ViewsBig(ViewsBase):
 
     def generate(self, rng, tier):
         n = 150 if tier == "quick" else 1500
+        # one parent with >= 256 children (8-bit / 16-bit counters), over two trees
+        for nkids in ([257] if tier == "quick" else [256, 300, 513]):
+            nodes = [[1, 0, NULL, NULL, ""] for _ in range(nkids)] + [[0, 1, NULL, NULL, ""], [0, 2, NULL, NULL, ""]]
+            p, g = nkids, nkids + 1
+            edges = [[0, 2, p, c, ""] for c in range(nkids - 1)] + [[0, 1, p, nkids - 1, ""], [1, 2, g, nkids - 1, ""],
+                                                                    [1, 2, g, p, ""]]
+            desc = mk_desc(2, [nd[1] for nd in nodes], [nd[0] for nd in nodes], edges, scale=0.5)
+            yield {"desc": desc, "sample_lists": True, "thr": 2, "tracked": list(range(0, nkids, 3)),
+                   "other": None, "paths": ["trees_core"], "tracked_layout": "strided"}
         for i in range(n):
             shape = rng.choice(["wide", "deep", "mixed"])
             desc = gen_ts.random_desc(rng, max_nodes=rng.choice([20, 30, 45]), max_L=rng.choice([6, 14]),
@@ -1050,10 +1082,10 @@ class Coiterate(Family):
     workers = 6
 
     def generate(self, rng, tier):
-        n = 300 if tier == "quick" else 4000
+        n = 400 if tier == "quick" else 4000
         for i in range(n):
             scale = rng.choice([1 / 3, 0.1, 1 / 7, 1, 0.3, 2.5, 1e-3 / 3, 1e6 / 7])
-            d1 = gen_ts.random_desc(rng, max_nodes=6, max_L=rng.choice([3, 6, 9]), max_sites=0, metadata=False,
+            d1 = gen_ts.random_desc(rng, max_nodes=6, max_L=rng.choice([4, 8, 12]), max_sites=0, metadata=False,
                                     individuals=False, populations=False, scale=scale,
                                     p_gap=rng.choice([0.0, 0.3]))
             d2 = gen_ts.random_desc(rng, max_nodes=6, max_L=d1["L"], max_sites=0, metadata=False,
@@ -1128,6 +1160,23 @@ class Coiterate(Family):
             if len(out) > 3:
                 break
         return out[:4]
+
+    prelude = "From TskVerif Require Import Base.Common C01.Model.\nOpen Scope Z_scope."
+    shard = 200
+
+    def coq_check(self, case, obs):
+        # order-isomorphic image: every double that occurs -> its rank
+        if "exc" in obs:
+            return None
+        vals = sorted({float.fromhex(h) for h in obs["bps1"] + obs["bps2"]})
+        rank = {v: i for i, v in enumerate(vals)}
+        r = lambda h: rank[float.fromhex(h)]
+        try:
+            rows = [[r(x[0]), r(x[1]), x[2], r(x[3]), r(x[4]), x[6], r(x[7]), r(x[8])] for x in obs["rows"]]
+        except KeyError:
+            return None       # an interval end that is no breakpoint: the oracle reports it
+        return "res_eqb zll_eqb (coiterate %s %s %s) %s" % (
+            cz(len(vals) - 1), clist([r(h) for h in obs["bps1"]]), clist([r(h) for h in obs["bps2"]]), cll(rows))
 
     def nontrivial(self, case, obs):
         return len(obs.get("rows", [])) > 1
